@@ -12,7 +12,7 @@ import vtlib
 from checks import tracecheck
 
 META = dict(
-    text='TLC exhausts the mutex acquisition / hand-off protocol over the scheduler core (MutexCore: 2 vCPUs, 3 threads, deadlines 0/now+1/inf, external interrupter, idler expiry, standby queue; explicit spinlock steps; context save as its own step) for mutual exclusion, result-matches-ownership, failed-lock-not-queued, not-stuck and hand-off invariants, and the three spinlocks at atomic-operation granularity (SpinLocks: 3 OS threads x 2 rounds, mutual exclusion + termination under fairness). Recorded executions of the real primitives (random programs of lock / timed lock / try_lock / unlock with thread_interrupt() from photon and OS threads, 1-3 vCPUs; plain, retries-0, contending and recursive mutex; spinlock, ticket_spinlock, qspinlock with OS-thread clients) are validated by TLC against the abstract lock (linearizability with silent take-effect steps): lock()==0 iff the caller became owner, failed lock() is a no-op and only fails by timeout/interruption, the guarded region is never shared, nothing is left locked or blocked at quiescence.',
+    text='TLC exhausts the mutex acquisition / hand-off protocol over the scheduler core (MutexCore: 2 vCPUs, 3 threads, deadlines 0/now+1/inf, external interrupter, idler expiry, standby queue; explicit spinlock steps; context save as its own step) for mutual exclusion, result-matches-ownership, failed-lock-not-queued, not-stuck and hand-off invariants, and the three spinlocks at atomic-operation granularity (SpinLocks: 3 OS threads x 2 rounds, mutual exclusion + termination under fairness). Recorded executions of the real primitives (random programs of lock / timed lock / try_lock / unlock with thread_interrupt() from photon and OS threads, 1-3 vCPUs; plain, retries-0, contending and recursive mutex; spinlock, ticket_spinlock, qspinlock with OS-thread clients) are validated by TLC against the abstract lock (linearizability with silent take-effect steps): lock()==0 iff the caller became owner, failed lock() is a no-op and only fails by timeout/interruption, the guarded region is never shared, nothing is left locked or blocked at quiescence. Tier B: the events emitted by guarded hooks inside the library at the end of each critical section (owner-word CAS and store inside atomic brackets, enqueue, interrupt / expiry claims, wake-up reasons) of further executions are validated against the critical-section protocol (Trace_MutexB.tla): hand-off only to the head of the queue and only by the owner with the internal spinlock held, a sleeper is claimed exactly once, the wake-up reason is the claim\'s reason, lock()==0 iff the owner word holds the caller.',
     note='Sequential consistency is assumed in the specifications (weak-memory reorderings of the spinlocks are not decided). TLC results hold for the stated small populations; conformance runs sample schedules (seeded programs, OS scheduling on 1-3 vCPUs) and check every recorded step against the specification. A thread still blocked 10 s after all programs ended is reported as a stuck mutex.',
     technique='TLA+ model of scheduler core + mutex protocol checked exhaustively by TLC; TLC trace validation (linearizability against abstract lock) of executions recorded from the real primitives',
     design='3/C01')
@@ -65,12 +65,42 @@ def run_traces(ctx, prims):
     return total_rej
 
 
+DROP_B = ('hPreSwitch', 'hDrain', 'hHeap', 'hSteal')
+
+
+def run_tier_b(ctx):
+    """Tier B: the guarded hook events of mutex executions against the critical-section protocol (Trace_MutexB.tla)."""
+    h = ctx.build_harness('h_sync')
+    n_exec, n_hook = 0, 0
+    for prim, execs in ([('mutex', 40), ('mutex0', 25), ('mutexc', 25), ('recmutex', 25)] if ctx.tier == 'quick' else
+                        [('mutex', 600), ('mutex0', 300), ('mutexc', 300), ('recmutex', 300)]):
+        trace = f'{ctx.out}/{prim}_B.ndjson'
+        rc, o, e = ctx.run_harness(h, ['--prim', prim, '--execs', execs, '--seed', ctx.seed + 100, '--vcpus', 3, '--threads', 4,
+                                        '--ops', 5, '--hooks', '--out', trace], timeout=900, ok_rcs=(0, 4))
+        if rc == 124:
+            raise vtlib.InfraError(f'h_sync --prim {prim} --hooks timed out')
+        rows = [r for r in vtlib.read_ndjson(trace) if r['e'] not in DROP_B]
+        hooks = sum(1 for r in rows if r['e'].startswith('h'))
+        if not hooks:
+            raise vtlib.InfraError('no hook events recorded: are the guarded hooks compiled in?')
+        n_hook += hooks
+        acc, rejs, n = tracecheck.validate(ctx, 'Trace_MutexB', 'Trace_MutexB.cfg', rows, tagbase=f'mutexB_{prim}', chunk_events=6000)
+        n_exec += n
+        tracecheck.report(ctx, rejs, f'{prim} (protocol level)', name=f'mutexB_{prim}')
+        if prim == 'mutex':
+            ex = tracecheck.split_execs(rows)
+            ctx.samples.append({'recorded_execution_with_hook_events': ex[min(2, len(ex) - 1)][:50]})
+    ctx.extra['tier_b_executions'] = n_exec
+    ctx.extra['tier_b_hook_events'] = n_hook
+
+
 def run(ctx):
     ctx.samples.append({'constants': open(f'{vtlib.SPEC}/MC_MutexCore_quick.cfg').read()})
     if not os.environ.get('VERIF_SKIP_MC') and not model_check(ctx):
         return ctx.finish()
     ctx.build_lib()
     run_traces(ctx, PRIMS_Q if ctx.tier == 'quick' else PRIMS_T)
+    run_tier_b(ctx)
     ctx.assumptions = ['sequential consistency in the specifications', 'interrupt reasons may surface at a later blocking call '
                        '(an EINTR failure is accepted whenever an interrupt was issued to that thread earlier in the execution)']
     return ctx.finish()
